@@ -135,6 +135,29 @@ def execute(case):
             projects[pi].new_module(builder.SIMPLE_TYPES[op.get("t", 0) % len(builder.SIMPLE_TYPES)])
             log.append((i, "mod", pi))
             continue
+        if k == "reload":
+            # the party saves its project, an outside program blanks some unlinked module
+            # sections to a bare SEND, and the party reopens the file: a project with empty
+            # positions, on which linking (and attaching into the gaps) continues
+            from . import c14
+            from ..simio import Ctx, active
+            from rv.readers.reader import read_sunvox_file
+
+            pi = op.get("p", 0) % 2
+            p = projects[pi]
+            data = p.read()
+            linked = {m.index for m in p.modules if m is not None and (any(x >= 0 for x in m.in_links) or any(x >= 0 for x in m.out_links))}
+            blank = {j for j in range(1, len(p.modules)) if j not in linked and (op.get("gaps", 0) >> (j % 30)) & 1}
+            if blank:
+                data = c14.blank_sections(data, blank)
+                probes["reload_with_gaps"] = probes.get("reload_with_gaps", 0) + 1
+            ctx = Ctx(())
+            with active(ctx):
+                projects[pi] = read_sunvox_file(ctx.new_stream(data, "arg"))
+            env.LOG.take()
+            check_project(projects[pi], models[pi], violations, i, "AB"[pi], {"operands": "n/a", "request": "reload"})
+            log.append((i, "reload", pi, len(blank)))
+            continue
         if k != "link":
             raise ValueError(op)
         pi = op.get("p", 0) % 2
@@ -226,13 +249,39 @@ def execute(case):
     }
 
 
+def generate_hub(r):
+    """One source module toggles links to many destinations: long out tables with freed slots."""
+    na = r.randint(8, 24)
+    ops = [{"k": "setup", "na": na, "nb": 1, "t": r.randrange(1000)}]
+    hub = r.randrange(100)
+    dests = [r.randrange(100) for _ in range(r.randint(3, 24))]
+    for _ in range(r.randint(20, 90)):
+        x = r.random()
+        d = r.choice(dests)
+        if x < 0.55:
+            ops.append({"k": "link", "form": r.choice(["call", "rshift"]), "from": [hub], "to": [d], "p": 0})
+        elif x < 0.9:
+            ops.append({"k": "link", "form": r.choice(["call", "rshift"]), "from": [hub], "to": [d], "neg": 2, "p": 0})
+        elif x < 0.95:
+            ops.append({"k": "link", "form": "call", "from": [hub], "to": [r.choice(dests) for _ in range(r.randint(2, 5))], "neg": r.getrandbits(6) & ~1, "p": 0})
+        else:
+            ops.append({"k": "link", "form": "lshift", "from": [r.choice(dests)], "to": [hub], "p": 0})
+    return {"property": PROPERTY, "world": "links", "ops": ops}
+
+
 def generate(seed, i, tier="quick"):
     r = seeds.rng(seed, "c07hist", i)
+    if r.random() < 0.12:
+        return generate_hub(r)
     ops = [{"k": "setup", "na": r.randint(1, 6), "nb": r.randint(1, 4), "t": r.randrange(1000)}]
     fp = r.choice([0.0, 0.0, 0.05, 0.15])
+    reloads = r.random() < 0.3
     for _ in range(r.randint(1, 25)):
-        if r.random() < 0.05:
-            ops.append({"k": "mod", "p": r.randrange(2), "t": r.randrange(1000)})
+        if reloads and r.random() < 0.12:
+            ops.append({"k": "reload", "p": 0, "gaps": r.getrandbits(30)})
+            continue
+        if r.random() < (0.25 if reloads else 0.05):
+            ops.append({"k": "mod", "p": 0 if reloads else r.randrange(2), "t": r.randrange(1000)})
             continue
         op = builder.gen_link_op(r, foreign_p=fp)
         op["p"] = 0 if r.random() < 0.8 else 1
